@@ -276,6 +276,14 @@ Lemma notify_one_fields w s :
   accepted (notify_one w s) = accepted s /\ now (notify_one w s) = now s.
 Proof. unfold notify_one. destruct (is_waiting (pc (get_prod w s))); unf2; repeat split; reflexivity. Qed.
 
+Lemma run_cons_S f s : run_cons (S f) s =
+  match cons s with
+  | CIdle | CStopped | CBlocked => s
+  | CStopC => if Nat.eqb (active s) 0 then run_cons f (do_step s (LCons 0)) else s
+  | _ => run_cons f (do_step s (LCons 0))
+  end.
+Proof. reflexivity. Qed.
+
 Lemma cycle_queue s v r :
   pol s = Queue -> vals s = v :: r -> cons s = CIdle -> stop_req s = false -> flag s = true ->
   let s' := cycle s in
@@ -307,14 +315,14 @@ Proof.
   assert (F2 : flag s2 = false) by (rewrite Es2, Es1; cbn; reflexivity).
   assert (E4 : do_step s3 (LCons 0) = if negb (is_nil r) then set_cons CIdle (set_flag true s3) else set_cons CIdle s3).
   { unfold do_step. cbn [step]. unfold cons_step. rewrite P3g. destruct (negb (is_nil r)); [rewrite P3c|]; reflexivity. }
-  assert (R1 : run_cons 8 s1 = run_cons 7 (do_step s1 (LCons 0))) by (cbn [run_cons]; rewrite P1g; reflexivity).
-  assert (R2 : run_cons 7 s2 = run_cons 6 (do_step s2 (LCons 0))) by (cbn [run_cons]; rewrite P2g; reflexivity).
-  assert (R3 : run_cons 6 s3 = run_cons 5 (do_step s3 (LCons 0))) by (cbn [run_cons]; rewrite P3g; reflexivity).
+  assert (R1 : run_cons 8 s1 = run_cons 7 (do_step s1 (LCons 0))) by (rewrite run_cons_S, P1g; reflexivity).
+  assert (R2 : run_cons 7 s2 = run_cons 6 (do_step s2 (LCons 0))) by (rewrite run_cons_S, P2g; reflexivity).
+  assert (R3 : run_cons 6 s3 = run_cons 5 (do_step s3 (LCons 0))) by (rewrite run_cons_S, P3g; reflexivity).
   rewrite R1, E2, R2, E3, R3, E4.
   destruct (negb (is_nil r)) eqn:Er.
-  - assert (R4 : run_cons 5 (set_cons CIdle (set_flag true s3)) = set_cons CIdle (set_flag true s3)) by reflexivity.
+  - assert (R4 : run_cons 5 (set_cons CIdle (set_flag true s3)) = set_cons CIdle (set_flag true s3)) by (rewrite run_cons_S; reflexivity).
     rewrite R4. cbn [pol vals cons stop_req flag delivered accepted set_cons set_flag]. repeat split; auto.
-  - assert (R4 : run_cons 5 (set_cons CIdle s3) = set_cons CIdle s3) by reflexivity.
+  - assert (R4 : run_cons 5 (set_cons CIdle s3) = set_cons CIdle s3) by (rewrite run_cons_S; reflexivity).
     rewrite R4. cbn [pol vals cons stop_req flag delivered accepted set_cons set_flag]. rewrite P3f, F2. repeat split; auto.
 Qed.
 
@@ -381,14 +389,19 @@ Proof.
   - destruct (H2 v Hv) as [x [Hx E]]. apply existsb_exists. exists x. split; [exact Hx|lia].
 Qed.
 
+Lemma index_of_nonneg v l : 0 <= index_of v l.
+Proof. induction l as [|x r IH]; cbn [index_of]; [lia|destruct (x =? v); lia]. Qed.
+
 Lemma index_of_lt v l : index_of v l < zlen l <-> In v l.
 Proof.
-  unfold zlen. induction l as [|x r IH]; simpl length; [simpl; split; [lia|tauto]|].
-  simpl index_of. destruct (Z.eqb_spec x v) as [->|Hne].
-  - split; [intros _; left; reflexivity|intros _; lia].
-  - split.
-    + intros H. right. apply IH. lia.
-    + intros [H|H]; [congruence|]. apply IH in H. lia.
+  unfold zlen. induction l as [|x r IH].
+  - cbn. split; [lia|tauto].
+  - cbn [index_of length In]. rewrite Nat2Z.inj_succ. pose proof (index_of_nonneg v r) as Hn.
+    destruct (Z.eqb_spec x v) as [->|Hne].
+    + split; [intros _; left; reflexivity|intros _; lia].
+    + split.
+      * intros H. right. apply IH. lia.
+      * intros [H|H]; [congruence|]. apply IH in H. lia.
 Qed.
 
 Lemma chk_fifo_ok h : chk_fifo h = true <->
@@ -515,5 +528,5 @@ Proof.
   rewrite chk_wf_ok, chk_once_ok, chk_fifo_ok, chk_times_ok, chk_cap_ok, chk_refuse_ok, chk_after_stop_ok, chk_all_ok, chk_latest_ok.
   split.
   - intros ((((((((H1 & H2) & H3) & H4) & H5) & H6) & H7) & H8) & H9). constructor; assumption.
-  - intros [H1 H2 H3 H4 H5 H6 H7 H8 H9]. repeat split; assumption.
+  - intros [H1 H2 H3 H4 H5 H6 H7 H8 H9]. exact (conj (conj (conj (conj (conj (conj (conj (conj H1 H2) H3) H4) H5) H6) H7) H8) H9).
 Qed.
